@@ -25,7 +25,7 @@ FILES = {
 S1 = ["badroot", "badxthash", "badtmark", "badoffmark"]
 S2 = ["baddispute", "badslot", "badslot0", "badticket", "badtproof", "badtorder", "badseal", "badentropy",
       "badauthor", "badepoch", "badxtorder", "badpreimage", "badassur", "badassuridx", "badreport", "badreportord"]
-OK = ["ok", "ok", "okticket"]
+OK = ["ok", "okticket", "okpreimage", "okpreimage"]
 TAU0 = [0, 3, 9, 10, 11]
 LIGHT = bool(os.environ.get("VF_LIGHT"))    # development on a busy machine: little parallelism
 
@@ -184,6 +184,7 @@ def run(ctx):
           "unexpected_verdicts": 0, "scen_with_rejection": 0, "epoch_crossings": 0}
     by_kind, unexpected = {}, []
     side = {"checked": 0, "mismatch": 0}
+    panics = []
     for s in scen:
         head = json.loads(s[0])
         if not head["built"]:
@@ -209,8 +210,8 @@ def run(ctx):
                         if g["b"] == e["x"]:
                             side["checked"] += 1
                             side["mismatch"] += (not g["found"]) or g["kvroot"] != e["root"]
-                if "GO PANIC" in e["err"]:
-                    raise vf.Infra("ImportBlock panicked (not a C26 verdict): %s" % ln[:300])
+                if e["panic"] and len(panics) < 5:
+                    panics.append(ln[:300])
                 if run_ == "A":
                     st["imports"] += 1
                     st["accepted" if e["ok"] else "rejected"] += 1
@@ -279,6 +280,9 @@ def run(ctx):
             vf.log("  selftest: rejected as expected: %s" % what)
 
     # ---- the binding must have been exercised (after V: a violation outranks these)
+    if not ctx.violations and panics:
+        # a Go panic that shows up alike with and without rejected blocks is a crash, not a C26 matter
+        raise vf.Infra("ImportBlock panicked, consistently over all runs (not a C26 verdict): %s" % panics[:2])
     if not ctx.violations and not ctx.replay:
         if st["accepted"] == 0 or st["rejected"] == 0 or st["retries"] == 0 or st["accepted_after_rejection"] == 0:
             raise vf.Infra("binding not exercised: %s" % st)
@@ -287,6 +291,6 @@ def run(ctx):
                            % (st["unexpected_verdicts"], st["imports"], unexpected[:2]))
         if not ctx.quick:
             missing = [k for k in S1 + S2 if by_kind.get(k, {}).get("rejected", 0) == 0]
-            if missing or by_kind.get("okticket", {}).get("accepted", 0) == 0 or st["epoch_crossings"] == 0:
+            if missing or by_kind.get("okticket", {}).get("accepted", 0) == 0 or by_kind.get("okpreimage", {}).get("accepted", 0) == 0 or st["epoch_crossings"] == 0:
                 raise vf.Infra("vacuity guard: recipes never rejected %s / okticket accepted %s / epoch crossings %d"
                                % (missing, by_kind.get("okticket"), st["epoch_crossings"]))
